@@ -314,12 +314,33 @@ class Pipeline:
             if r.func is None:
                 kinds[r.name] = ("raw", None)
                 continue
-            it = A.Interp(self.src)
-            tok = A.TokenVal({"value": A.Sym("rawtoken", r.name), "type": A.Tmpl.lit(r.name),
-                              "lineno": 1, "index": 0, "end": 1})
-            lexobj = A.Obj(it.class_val(self.main_lexer.mod, self.main_lexer.node), {"lineno": 1, "index": 0})
+            def job(it, r=r):
+                tok = A.TokenVal({"value": A.Sym("rawtoken", r.name), "type": A.Tmpl.lit(r.name),
+                                  "lineno": 1, "index": 0, "end": 1})
+                lexobj = A.Obj(it.class_val(self.main_lexer.mod, self.main_lexer.node), {"lineno": 1, "index": 0})
+                return it.call(A.FuncVal(self.main_lexer.mod, r.func, lexobj), [tok], {})
             try:
-                res = it.call(A.FuncVal(self.main_lexer.mod, r.func, lexobj), [tok], {})
+                outcomes = A.run_forking(self.src, job, max_forks=16)
+                if any(isinstance(o_[1], A.RaiseSig) for o_ in outcomes) and not all(isinstance(o_[1], A.RaiseSig) for o_ in outcomes):
+                    self.token_kind_notes[r.name] = "the action raises for some token texts"
+                reses = [o_[1] for o_ in outcomes if not isinstance(o_[1], A.RaiseSig)]
+                if not reses:
+                    raise outcomes[0][1]
+                for res in reses[1:]:
+                    if isinstance(res, A.TokenVal):
+                        v = res.attrs.get("value")
+                        ty = res.attrs.get("type")
+                        tyn = ty.text() if isinstance(ty, A.Tmpl) and ty.is_literal() else r.name
+                        kinds[tyn] = ("value", v.kind if isinstance(v, A.Sym) else type(v).__name__)
+                res = reses[0]
+                if isinstance(res, A.TokenVal):
+                    ty = res.attrs.get("type")
+                    tyn = ty.text() if isinstance(ty, A.Tmpl) and ty.is_literal() else r.name
+                    if tyn != r.name:
+                        v = res.attrs.get("value")
+                        kinds[tyn] = ("value", v.kind if isinstance(v, A.Sym) else type(v).__name__)
+                        if len(reses) == 1:
+                            continue
             except A.Unsupported as e:
                 # the action does something the abstract domain cannot follow: keep the value opaque
                 # (a string) so taint rules still see it; C05.TOKEN-CONV reports the action itself
@@ -351,7 +372,24 @@ class Pipeline:
             vals = [ev(k) for k in kids]
             if prod.index == 0:
                 return vals[0]
-            p = A.PVal(prod.syms, vals)
+            if prod.builtin:
+                # productions sly generates for EBNF groups, with the values its generated actions return
+                b_ = prod.builtin
+                if b_ in ("opt-some", "item"):
+                    return A.AList(list(vals), "tuple")
+                if b_ == "opt-none":
+                    return A.AList([None] * prod.nvals, "tuple")
+                if b_ == "rep":
+                    return vals[0]
+                if b_ == "rep-empty":
+                    return A.AList([], "list")
+                if b_ == "many":
+                    return A.AList(list(vals[0].items) + [vals[1]], "list")
+                if b_ == "many1":
+                    return A.AList([vals[0]], "list")
+                if b_ == "choice":
+                    return vals[0]
+            p = A.PVal(prod.syms, vals, prod.aliases)
             return interp.call(A.FuncVal(self.grammar.mod, prod.func, parser_obj), [p], {})
         return ev(tree)
 
